@@ -559,7 +559,10 @@ fn main() {
                     let a = files[rng.gen_range(0..files.len())];
                     let b = files[rng.gen_range(0..files.len())];
                     let big: Vec<u8> = (0..rng.gen_range(1000..5000)).map(|i| (i % 251) as u8).collect();
-                    let c = match rng.gen_range(0..16) {
+                    let c = match rng.gen_range(0..17) {
+                        // the working directory moves between "/" and "/d": handles opened under a relative spelling stay bound to
+                        // the file they were opened on
+                        16 => call("set_cwd", ["/", "/d"][rng.gen_range(0..2)], ""),
                         0 | 1 => call_d("write_all", a, &rand_data(&mut rng)),
                         2 | 3 => call_d("append_all", a, &rand_data(&mut rng)),
                         4 => call_d("write_all", a, &big),
@@ -575,6 +578,9 @@ fn main() {
                             let what = ["h_open", "h_write", "h_flush", "h_drop", "h_drop", "hr_open", "hr_read", "hr_drop"][rng.gen_range(0..8)];
                             let data = rand_data(&mut rng);
                             let append = rng.gen_bool(0.5);
+                            if what == "h_open" && rng.gen_bool(0.5) {
+                                ch.open_as = Some(rel_spelling(a, &ch.cwd()));
+                            }
                             ch.handle_op(&prog, id, what, slot, a, &data, append);
                             continue;
                         },
